@@ -3,7 +3,7 @@
    computation; the theorems of Props/C04.v lift them through the lemmas
    proved once in SiteProofs / CloseProofs / PolicyProofs. *)
 From Coq Require Import String List NArith Bool.
-From Nexus Require Import Safety.Values Safety.Accessors Safety.Sites Safety.Close Safety.Policy.
+From Nexus Require Import Safety.Values Safety.Accessors Safety.Sites Safety.Close Safety.Policy Safety.Locks.
 From Nexus Require Import gen.GenC04Sites.
 Import ListNotations.
 
@@ -31,6 +31,13 @@ Proof. vm_compute. reflexivity. Qed.
 Lemma close_table_ok : close_sites_ok gen_close_paths = true.
 Proof. vm_compute. reflexivity. Qed.
 
+(* every use of a session's details map that can overlap a writer holds that
+   session's lock *)
+Definition gen_details_states : list lockstate := details_states gen_sites.
+
+Lemma details_table_ok : details_ok gen_details_states = true.
+Proof. vm_compute. reflexivity. Qed.
+
 (* every site that touches client-controlled data, every explicit panic, peer
    close and transport delivery satisfies the decidable condition *)
 Lemma site_table_ok : forallb (site_safe gen_cfg) gen_client_sites = true.
@@ -45,5 +52,6 @@ Lemma inventory_not_vacuous :
   Nat.leb 20 (count (fun s => match s_kind s with SIndex _ _ => true | _ => false end))= true /\
   existsb (fun p => match p with CPExit true true true => true | _ => false end) gen_close_paths = true /\
   Nat.leb 2 (count (fun s => match s_kind s with SMsgSend _ => true | _ => false end))= true /\
-  Nat.leb 10 (count (fun s => match s_kind s with SPanic _ => true | _ => false end))= true.
+  Nat.leb 10 (count (fun s => match s_kind s with SPanic _ => true | _ => false end))= true /\
+  Nat.leb 8 (length (filter (fun s => match s with LSLocked => true | _ => false end) gen_details_states)) = true.
 Proof. vm_compute. repeat split. Qed.
